@@ -10,7 +10,8 @@ From GT Require Import Base.UTree Spec.Obs Model.Reroot Model.Outgroup Spec.Unro
      Proofs.RerootBase Proofs.Reroot Proofs.Unroot Proofs.Reorder Proofs.Splits Proofs.USplits
      Proofs.C05Main
      Proofs.OutgroupBase Proofs.OutgroupCut Proofs.OutgroupKeep Proofs.OutgroupLCA Proofs.OutgroupClade
-     Proofs.OutgroupMain Proofs.OutgroupSide Proofs.OutgroupMidpoint Proofs.OutgroupWitness.
+     Proofs.OutgroupMain Proofs.OutgroupSide Proofs.OutgroupRemove Proofs.OutgroupRemoveMain
+     Proofs.OutgroupMidpoint Proofs.OutgroupMidDist Proofs.OutgroupWitness.
 Import ListNotations.
 Local Close Scope Q_scope.
 
@@ -413,6 +414,24 @@ Example C05_example_outgroup_zero_cut :
 Proof. exact outgroup_zero_cut_example. Qed.
 Print Assumptions C05_example_outgroup_zero_cut.
 
+(** (i) with removal: the result is the input tree minus a set of leaves [Rm] containing the
+    requested tips -- exactly the requested tips in strict mode or when they are one side of a
+    split; the remaining leaves keep their path lengths ([Em]: the entries of the distance
+    list that involve a removed leaf) *)
+Theorem C05_outgroup_remove :
+  forall strict t names t',
+    wf t = true -> 2 <= degree t -> (rooted t = true -> root_has_inner_child t = true) ->
+    NoDup (leaves t) ->
+    reroot_outgroup true strict t names = Ok t' ->
+    let G := group (unroot t) names in
+    wf t' = true /\ 2 <= degree t' /\
+    exists Rm,
+      Permutation (leaves t) (leaves t' ++ Rm) /\ incl G Rm /\
+      (strict = true \/ side_of t G -> Permutation Rm G) /\
+      exists Em, dists_equiv (pairdists len0 t) (pairdists len0 t' ++ Em) /\ Forall (ends_in Rm) Em.
+Proof. exact reroot_outgroup_remove. Qed.
+Print Assumptions C05_outgroup_remove.
+
 (** * (e) midpoint rooting: Model/Outgroup.v [reroot_midpoint] (RerootMidPoint + MaxLengthPath) *)
 
 (** what holds: well-formed, root with two neighbours, same leaves *)
@@ -423,6 +442,26 @@ Theorem C05_midpoint_wf_leaves :
     wf t' = true /\ degree t' = 2 /\ Permutation (leaves t') (leaves t).
 Proof. exact reroot_midpoint_wf_leaves. Qed.
 Print Assumptions C05_midpoint_wf_leaves.
+
+(** (i) tip-to-tip path lengths are kept (raw lengths: a success means that every branch has
+    one; the two root branches of a rooted input must not be negative, as for UnRoot) *)
+Theorem C05_midpoint_preserves :
+  forall t t',
+    wf t = true -> 2 <= degree t -> (rooted t = true -> root_has_inner_child t = true) ->
+    (rooted t = true -> forall p, In p (kids t) -> (0 <= elen (fst p))%Q) ->
+    reroot_midpoint t = Ok t' ->
+    wf t' = true /\ degree t' = 2 /\ Permutation (leaves t') (leaves t) /\
+    dists_equiv (pairdists elen t') (pairdists elen t).
+Proof. exact reroot_midpoint_preserves. Qed.
+Print Assumptions C05_midpoint_preserves.
+
+(** MaxLengthPath always ends at a leaf *)
+Theorem C05_mlp_leaf :
+  forall s p l, mlp s = Some (p, l) ->
+    (kids s = [] /\ p = []) \/
+    (kids s <> [] /\ p <> [] /\ exists b, node_at s p = Some b /\ kids b = []).
+Proof. exact mlp_leaf. Qed.
+Print Assumptions C05_mlp_leaf.
 
 (** the inputs of the two midpoint defects repaired in /repo (zero-length tail of the longest
     path; all branches of length 0): root halfway, path lengths kept; clean refusal *)
